@@ -27,6 +27,13 @@ _p('C03',
    'compute_residual(stage=IT_CHECK) dominate one another in this order and the decision loop follows the residual loop, the handler stores nothing into level '
    'data; (R4) boolean normal form of check_convergence; (R5) writers of status.iter/done/force_continue; (R6) logged fields are the deciding fields.',
    ['the numeric value of the residual', 'that abs() is a norm (C13)', 'convergence-controller side effects on level data (HotRod discards a sweep by design)'])
+_p('C04',
+   'ONLY structural clauses about the Runge-Kutta sweepers and the start value: (R1) update_nodes of RungeKutta / RungeKuttaIMEX are the stage equations of a Butcher tableau (strictly lower row of THIS stage, '
+   'implicit factor dt*a[m,m] at the node time, explicit stages take the sum, f re-evaluated, one sweep only); (R2) primary end point with weight row 0, embedded with row 1 over the same stage derivatives, last stage '
+   'copied exactly when stiffly accurate, IMEX sibling with explicit weights on the explicit part; (R3) embedded wiring: genCoeffs(embedded=True) <=> ButcherTableauEmbedded, every embedded class documents an update order, '
+   'AdaptivityRK takes that order, the estimate is |primary - embedded|; (R4) spread predictor copies u0 to every node, unknown guesses raise, RK stages start from zero and disable restol.',
+   ['order min(k, p) of k SDC sweeps', 'stability function of the converged iteration', 'that any tableau attains its documented order', 'that any embedded pair differs at the order get_update_order returns (the integers themselves are NOT checked against the tableaux, which live in qmat)',
+    '- all statements about Taylor coefficients: NOT decided by this check'])
 _p('C05',
    'ONLY the structural clauses of the statement: (R1) the qmat generator is asked for exactly (num_nodes, node_type, quad_type, tleft, tright) - the affine map is delegated, nothing is rescaled afterwards - and '
    'bad counts/intervals raise; (R2) left/right end-point flags as membership tables of the quadrature type, automatic collocation update when the right end is no node; (R3) Qmat/Smat are zeros(M+1,M+1) with '
